@@ -5,6 +5,7 @@ pub mod c01;
 pub mod c02;
 pub mod c03;
 pub mod c05;
+pub mod c06;
 pub mod c07;
 pub mod c12;
 pub mod parsefam;
@@ -15,6 +16,7 @@ pub fn run(id: &str, cfg: &Config) -> i32 {
 		"C02" => c02::run(cfg),
 		"C03" => c03::run(cfg),
 		"C05" => c05::run(cfg),
+		"C06" => c06::run(cfg),
 		"C07" => c07::run(cfg),
 		"C12" => c12::run(cfg),
 		_ => {
@@ -55,6 +57,7 @@ pub fn replay(id: &str, cfg: &Config, path: &Path) -> i32 {
 			Some(mon.rep.violations.iter().map(|v| format!("[{}] {}", v.signature, v.what)).collect())
 		}
 		("C03", _) => c03::replay_case(cfg, &case),
+		("C06", "history") => c06::replay_case(&case),
 		_ => None,
 	};
 	match fired {
